@@ -34,7 +34,7 @@ RULE = ("samples of length 0..200 with |x| <= 1e6 in eight shapes (uniform, smal
         "samples whose products over chunks of 2..200 values under/overflow; whole samples of magnitude 1e-300..1e300; "
         "narrow samples at offsets 1e-100..1e100 of relative width 1e-1..1e-16; exact translations by 2^20..2^50; "
         "zero/sign patterns (all negative, zero maximum, signed zeros, symmetric); NaN/inf/non-positive data at every "
-        "position (correspondence only); non-trivial = the model's answer contains a number that is not NaN; "
+        "position (correspondence only; a geometric mean of data that is not positive: returns-vs-panics only); non-trivial = the model's answer contains a number that is not NaN; "
         "distinct = distinct request lines")
 
 U = Fraction(1, 2 ** 53)
@@ -134,7 +134,7 @@ def check_geom(xs, got):
     if n == 0:
         return None if isnan(got) else f"geometric mean of the empty sample is {got!r}, not NaN"
     if not finite(xs) or any(x <= 0 for x in xs):
-        return None  # outside the property's domain (positive data); correspondence still compares bits
+        return None  # outside the property's domain (positive data): see `compare` (only a panic is a disagreement)
     if min(xs) < GEOM_MIN or max(xs) > GEOM_MAX:
         return None  # the result may be subnormal (no relative accuracy) or overflow by an ulp: correspondence only
     if isnan(got) or math.isinf(got) or got <= 0:
@@ -217,6 +217,54 @@ def oracle(req, impl):
             return f"(n-1) std_s^2 != n std_p^2: std_s = {vals[0]!r}, std_p = {vals[1]!r}, n = {n}"
         return None
     return f"unknown request {cmd}"
+
+
+# ------------------------------------------------------------------ correspondence
+
+_NO_RETURN = ("panic", "harness-panic", "process-abort", "timeout")
+
+
+def _close_bits(a_tok, b_tok):
+    """two `f<bits>` tokens: bit-equal, both NaN, equal as numbers (+-0), or within 1e-9 relative"""
+    a, b = fl(a_tok[1:]), fl(b_tok[1:])
+    if isnan(a) or isnan(b):
+        return isnan(a) and isnan(b)
+    if a == b:
+        return True
+    if math.isinf(a) or math.isinf(b):
+        return False
+    return abs(a - b) <= 1e-9 * max(abs(a), abs(b), 1e-300)
+
+
+def compare(req, impl, model):
+    """The framework's default relation (tokens exactly, `f<bits>` tokens numerically: bit-equal, both NaN, or within
+    1e-9 relative - the deviation and the means "equal their defining formulas to within rounding", so last bits may
+    move), with one exception: the geometric mean of a non-empty sample that contains a value that is not positive
+    (zero, negative, NaN).  The statement and its quantifier constrain the geometric mean for "positive data" only; what
+    is returned for such a sample (0, NaN, ...) is a convention the property does not fix, so there only "returns"
+    against "panics / aborts" is compared.  The empty sample stays compared (NaN is owed there)."""
+    if impl == model:
+        return None
+    ti, tm = impl.split(), model.split()
+    t = req.split()
+    if t and t[0] == "geom":
+        try:
+            xs, _ = read_vec(t, 1)
+        except Exception:
+            xs = None
+        if xs and any(not (x > 0) for x in xs):
+            if (bool(ti) and ti[0] in _NO_RETURN) != (bool(tm) and tm[0] in _NO_RETURN) or not ti or not tm:
+                return f"outcome: impl `{impl[:40]}` model `{model[:40]}`"
+            return None
+    if len(ti) != len(tm):
+        return "different number of fields"
+    for k, (x, y) in enumerate(zip(ti, tm)):
+        if x == y:
+            continue
+        if x[:1] == "f" and y[:1] == "f" and x[1:].isdigit() and y[1:].isdigit() and _close_bits(x, y):
+            continue
+        return f"field {k}: impl {x} model {y}"
+    return None
 
 
 def nontrivial(req, model):
